@@ -21,15 +21,15 @@ Theorem C11_read_through_terminates :
 Proof. exact scan_from_fuel_enough. Qed.
 Print Assumptions C11_read_through_terminates.
 
-(* recoverTail's only data-dependent allocation (the CRC batch buffer of
-   c_off - c_crc_start bytes) is at most the file length *)
+(* recoverTail's only data-dependent allocation is the CRC batch buffer, grown to
+   c_off - c_crc_start bytes for the commit frames it walks back over: for EVERY
+   commit frame of the scan that size is at most the file length, and the ReadAt
+   filling the buffer returns exactly that many bytes (its error path is dead) *)
 Theorem C11_recover_alloc_bound :
   forall f,
-    match ra_final (rec_fold (scan f)) with
-    | Some fc => c_off fc - c_crc_start fc <= len f /\
-                 len (read_at f (c_crc_start fc) (c_off fc - c_crc_start fc)) <= len f
-    | None => True
-    end.
+    Forall (fun c => c_off c - c_crc_start c <= len f /\
+                     len (read_at f (c_crc_start c) (c_off c - c_crc_start c)) = c_off c - c_crc_start c)
+           (ra_commits (rec_fold (scan f))).
 Proof. exact recover_alloc_bound. Qed.
 Print Assumptions C11_recover_alloc_bound.
 
